@@ -108,6 +108,21 @@ func run(c Case) (o outcome, perr error) {
 			jp.AccumulatedCopySizeLimit = c.Limit
 			defer func() { jp.AccumulatedCopySizeLimit = old }()
 			o.out, o.err = p.Apply([]byte(c.Doc))
+			// the other option-less entry point reads the same package default at the same moment
+			iout, ierr := p.ApplyIndent([]byte(c.Doc), " ")
+			var a1, a2 *jp.AccumulatedCopySizeError
+			switch {
+			case (o.err == nil) != (ierr == nil) || errors.As(o.err, &a1) != errors.As(ierr, &a2):
+				o.err = fmt.Errorf("Apply and ApplyIndent disagree under the package default %d: Apply -> %v, ApplyIndent -> %v", c.Limit, o.err, ierr)
+				o.out = nil
+			case ierr == nil:
+				x, e1 := ref.Parse(o.out)
+				y, e2 := ref.Parse(iout)
+				if e1 != nil || e2 != nil || !ref.Equal(x, y) {
+					o.err = fmt.Errorf("Apply and ApplyIndent give different documents under the package default %d: %s vs %s", c.Limit, o.out, iout)
+					o.out = nil
+				}
+			}
 		})
 		var ace *jp.AccumulatedCopySizeError
 		o.isAce = errors.As(o.err, &ace)
